@@ -1382,7 +1382,9 @@ def info_for_single_file(root_path, verbose, single_file):
     for path in single_file:
         relative_path = existing_history.get_relative_file_path(os.path.abspath(path))
         logger.info(f"{relative_path}:")
-        for hash_list in existing_history.hash_lists:
+        # a file inside of a nested history is recorded there, not in the history of the given (outer) folder
+        history, relative_path = existing_history.find_history_for_path(relative_path)
+        for hash_list in history.hash_lists:
             media_hash = hash_list.find_media_hash_for_path(relative_path)
             if media_hash is None:
                 continue
@@ -1402,7 +1404,9 @@ def info_for_single_file(root_path, verbose, single_file):
                         logger.info(
                             " In previous generations the file was named: {}\n\n".format(media_hash.previous_path)
                         )
-                        info_for_single_file(root_path, verbose, [os.path.join(root_path, media_hash.previous_path)])
+                        info_for_single_file(
+                            root_path, verbose, [os.path.join(history.get_root_path(), media_hash.previous_path)]
+                        )
                 else:
                     logger.info(
                         f"  Generation {hash_list.generation_number} ({hash_list.creator_info.creation_date})"
